@@ -93,6 +93,7 @@ type Ctx struct {
 	// current execution, for the watchdog and for panics
 	curSpace  *Space
 	curIn     []byte
+	curOrig   []byte
 	curArgs   map[string]string
 	execs     int64
 	failedNow bool
@@ -220,7 +221,8 @@ func copyArgs(m map[string]string) map[string]string {
 // Exec runs one case of a space under recover(); a panic is a violation of
 // clause "panic" whose site is the first frame inside the library.
 func (c *Ctx) Exec(s *Space, in []byte, args map[string]string) (failed bool) {
-	c.curSpace, c.curIn, c.curArgs = s, in, args
+	c.curOrig = append(c.curOrig[:0], in...) // harnesses may rewrite the input in place
+	c.curSpace, c.curIn, c.curArgs = s, c.curOrig, args
 	c.failedNow = false
 	atomic.AddInt64(&c.execs, 1)
 	if c.tracef != nil {
